@@ -8,6 +8,7 @@ import (
 	"net/http"
 	"net/http/httptest"
 	"strings"
+	"sync"
 	"time"
 
 	"github.com/tigerwill90/fox"
@@ -335,6 +336,14 @@ type heldRead2 struct {
 	run  func(rt *fox.Router)
 }
 
+// readers that pinned a version of the tree which a later commit has retired (set up before the writer is held)
+type retiredHandles struct {
+	ro *fox.Txn
+	it fox.Iter
+}
+
+var retiredByRouter sync.Map // *fox.Router -> *retiredHandles
+
 func heldReaders() []heldRead2 {
 	serve := func(m, p string) func(rt *fox.Router) {
 		return func(rt *fox.Router) {
@@ -380,6 +389,25 @@ func heldReaders() []heldRead2 {
 				all(sn.Iter())
 			}
 		}},
+		{"read-only Txn opened before the last commit: Reverse, Lookup", func(rt *fox.Router) {
+			v, ok := retiredByRouter.Load(rt)
+			if !ok {
+				return
+			}
+			h := v.(*retiredHandles)
+			h.ro.Reverse(http.MethodGet, "", "/held/a")
+			h.ro.Reverse(http.MethodGet, "", deepPath(30))
+			if _, cc, _ := h.ro.Lookup(nil, httptest.NewRequest(http.MethodGet, "/held/a", nil)); cc != nil {
+				cc.Close()
+			}
+		}},
+		{"Iter created before the last commit: Reverse, All", func(rt *fox.Router) {
+			v, ok := retiredByRouter.Load(rt)
+			if !ok {
+				return
+			}
+			all(v.(*retiredHandles).it)
+		}},
 		{"View: reads, Iter, Snapshot", func(rt *fox.Router) {
 			_ = rt.View(func(tx *fox.Txn) error {
 				tx.Len()
@@ -424,6 +452,12 @@ func runReadersVsHeldWriters(r *Run) {
 				for i := 1; i <= 30; i++ {
 					rt.MustHandle(http.MethodGet, deepPath(i), routeHandler("deep"))
 				}
+				// two readers pin the current version, then a commit retires it (its context pool has never been used)
+				rh := &retiredHandles{ro: rt.Txn(false), it: rt.Iter()}
+				rt.MustHandle(http.MethodGet, "/held/later", routeHandler("later"))
+				retiredByRouter.Store(rt, rh)
+				defer retiredByRouter.Delete(rt)
+				defer rh.ro.Abort()
 				release := hw.hold(rt)
 				done := make(chan struct{})
 				go func() {
@@ -529,4 +563,68 @@ func runPanicInsideWrites(r *Run) {
 			}
 		})
 	}
+}
+
+// C04: a Txn.Snapshot of a write transaction is a read-only view: writes through it are refused with ErrReadOnlyTxn,
+// Commit and Abort on it do nothing (in particular they neither publish the parent's writes nor release its lock).
+func runSnapshotIsReadOnly(r *Run) {
+	detail := func() map[string]any { return map[string]any{"family": "snapshot-read-only"} }
+	r.guard("snapshot of a write transaction", detail, func() {
+		rt, err := fox.New()
+		if err != nil {
+			failTool("fox.New: %v", err)
+		}
+		h := routeHandler("s")
+		rt.MustHandle(http.MethodGet, "/old", h)
+		txn := rt.Txn(true)
+		txn.Handle(http.MethodGet, "/new", h)
+		sn := txn.Snapshot()
+		var problem []string
+		if _, err := sn.Handle(http.MethodGet, "/viasnap", h); !errors.Is(err, fox.ErrReadOnlyTxn) {
+			problem = append(problem, fmt.Sprintf("Handle through the snapshot: %v", err))
+		}
+		if _, err := sn.Update(http.MethodGet, "/old", h); !errors.Is(err, fox.ErrReadOnlyTxn) {
+			problem = append(problem, fmt.Sprintf("Update through the snapshot: %v", err))
+		}
+		if _, err := sn.Delete(http.MethodGet, "/old"); !errors.Is(err, fox.ErrReadOnlyTxn) {
+			problem = append(problem, fmt.Sprintf("Delete through the snapshot: %v", err))
+		}
+		if err := sn.Truncate(); !errors.Is(err, fox.ErrReadOnlyTxn) {
+			problem = append(problem, fmt.Sprintf("Truncate through the snapshot: %v", err))
+		}
+		sn.Commit()
+		if rt.Has(http.MethodGet, "/new") || rt.Len() != 1 {
+			problem = append(problem, "Commit on the snapshot published the parent's uncommitted writes")
+		}
+		sn.Abort()
+		// the parent still holds the writer lock: another writer must wait until it ends
+		got := make(chan struct{})
+		go func() { rt.Handle(http.MethodGet, "/other", h); close(got) }()
+		select {
+		case <-got:
+			// the parent transaction must not be ended now: unlocking the mutex a second time is a fatal error of the
+			// Go runtime, which no harness can turn into a verdict
+			d := detail()
+			d["prescribed"] = "Commit and Abort on a snapshot do nothing"
+			d["obtained"] = append(problem, "Commit / Abort on the snapshot released the writer lock of the open parent transaction")
+			r.violation("snapshot of a write transaction: Commit / Abort on it released the writer lock of the open parent", d)
+			return
+		case <-time.After(300 * time.Millisecond):
+		}
+		if !txn.Has(http.MethodGet, "/new") || txn.Has(http.MethodGet, "/viasnap") || txn.Len() != 2 {
+			problem = append(problem, "the parent transaction lost or gained routes")
+		}
+		txn.Commit()
+		<-got
+		if !rt.Has(http.MethodGet, "/new") || !rt.Has(http.MethodGet, "/other") || rt.Len() != 3 {
+			problem = append(problem, fmt.Sprintf("after the parent's Commit: Len=%d", rt.Len()))
+		}
+		r.addCov("snapshot_read_only_checks", 1)
+		if len(problem) > 0 {
+			d := detail()
+			d["prescribed"] = "ErrReadOnlyTxn for writes; Commit and Abort without effect"
+			d["obtained"] = problem
+			r.violation("snapshot of a write transaction: "+problem[0], d)
+		}
+	})
 }
